@@ -2,7 +2,9 @@
 """Merges the per-back-end parts written by `qsim batch` into /verif/evidence/<id>.json."""
 import json, sys, time
 prop, tier, seed, t0 = sys.argv[1], sys.argv[2], int(sys.argv[3]), float(sys.argv[4])
-parts = [json.load(open(p)) for p in sys.argv[5:]]
+allparts = [json.load(open(p)) for p in sys.argv[5:]]
+parts = [p for p in allparts if p.get("source", "rnd") != "sys"]
+sysparts = [p for p in allparts if p.get("source") == "sys"]
 tot = lambda k: sum(p[k] for p in parts)
 fk = lambda k: sum(p["faults_fired"][k] for p in parts)
 wall = time.time() - t0
@@ -16,11 +18,17 @@ ev = {
  "seed": seed,
  "level": "exploration",
  "coverage": {
-  "evaluations": tot("runs"),
+  "evaluations": tot("runs") + sum(p["runs"] for p in sysparts),
   "distinct_nontrivial": tot("distinct_nontrivial_runs"),
   "rule": "one evaluation = one simulated run: 1-4 real caller threads (only one runs at a time; the simulator decides at every sink write, at every operation boundary and - in about half of the multi-threaded runs - at every allocation the library makes inside a display, who proceeds), each performing 1-5 Display operations (quantity value / unit / rate x literal format specification x amount class) into a fault-injecting fmt::Write sink; everything is derived from the run seed = f(VERIF_SEED, run index). A run is non-trivial if the simulation dimension was exercised in it: a thread switch in the middle of a display (at a sink write or at a library allocation), a fired sink error, a fired (and caught) sink panic, or a re-entrant display issued by the sink; runs are distinct by (operation lists, schedule trace) hash. Oracle: every display that completed Ok on a sink that never failed must have delivered exactly the reference-model text (sim/src/model.rs), plus parse-back and fractional-digit checks that bypass the model.",
   "samples": samples,
-  "simulated_runs": tot("runs"),
+  "simulated_runs": tot("runs") + sum(p["runs"] for p in sysparts),
+  "seeded_search_runs": tot("runs"),
+  "systematic_placement": {
+    "exhaustive_over": "every unit of every type x what meets the event {a negative value, the bare unit, a rate (plain specification) / a positive value} x 5 format specifications x sink write index 0..19 x event {sink error, sink panic caught, hand-over to a second caller thread that runs 5 displays, re-entrant display}, each followed by 5 probe displays (same unit, another type, the bare unit, a rate, the first value again)",
+    "exhaustive": True,
+    "per_backend": [{"backend": p["backend"], "plans": p["runs"], "display_operations_judged": p["ops_judged"], "faults_fired": p["faults_fired"], "thread_switches_inside_a_display": p["thread_switches_inside_a_display"], "violations": p["violations"], "wall_s": p["wall_s"]} for p in sysparts],
+  },
   "runs_per_hour": int(tot("runs") / max(sum(p["wall_s"] for p in parts), 1e-9) * 3600),
   "display_operations": tot("ops"),
   "display_operations_judged_against_model": tot("ops_judged"),
@@ -53,7 +61,7 @@ ev = {
   "sampling: a clean batch is evidence, not proof",
  ],
  "wall_s": round(wall, 2),
- "violations": tot("violations"),
+ "violations": tot("violations") + sum(p["violations"] for p in sysparts),
 }
 import glob, os, re
 miri = []
